@@ -16,7 +16,7 @@ from fractions import Fraction
 import numpy
 from .common import check
 from .gen import rand_poly, nested, count
-from .model import MPoly, build, spec_model, from_ndpoly, same, describe, mono_key, num
+from .model import MPoly, build, spec_model, from_ndpoly, same, describe, mono_key
 
 NAMES = tuple(f"q{i}" for i in range(13))
 SHAPES = [(), (1,), (2,), (3,), (1, 1), (2, 2), (1, 3), (2, 1, 2), (1, 2, 2)]
@@ -28,7 +28,9 @@ FLAGS = list(itertools.product((False, True), repeat=3))
 
 
 def poly_spec(rng, shape, dtype, maxterms=4, size0=None):
-    s = rand_poly(rng, shape=shape, maxterms=maxterms, maxexp=rng.choice([3, 3, 11]), dtype=dtype, pool=POOLS[dtype], names_pool=NAMES)
+    names = sorted(rng.sample(NAMES, rng.choice([1, 1, 2, 2, 3])), key=lambda n: int(n[1:]))
+    maxterms = min(maxterms, 4 ** len(names))       # rand_poly draws exponents from 4 values per indeterminate
+    s = rand_poly(rng, shape=shape, names=names, maxterms=maxterms, maxexp=rng.choice([3, 3, 11]), dtype=dtype, pool=POOLS[dtype])
     if dtype == "complex128":
         s["im"] = [nested(rng, tuple(shape), POOLS[dtype] + [2.0, -1.0]) for _ in s["exponents"]]
     if size0:
@@ -237,7 +239,7 @@ def gen_denote(tier, rng, dtypes=("int64", "float64", "complex128", "bool"), max
             for dtype in dtypes:
                 shapes = SHAPES if tier == "thorough" else [()] + rng.sample(SHAPES[1:], 2)
                 for shape in shapes:
-                    for _ in range(count(tier, 1, 2)):
+                    for _ in range(count(tier, 1, 6)):
                         yield {"poly": poly_spec(rng, shape, dtype, maxterms=rng.choice([1, 2, maxterms, maxterms])), "options": o}
 
 
@@ -358,7 +360,7 @@ def gen_sympy(tier, rng):
     for g, r, i in (FLAGS if tier == "thorough" else [(True, False, True)] + rng.sample(FLAGS, 3)):
         o = {"graded": g, "reverse": r, "inverse": i, "exponent": "**", "multiply": "*"}
         for dtype in ("int64", "float64"):
-            for _ in range(count(tier, 8, 40)):
+            for _ in range(count(tier, 8, 60)):
                 s = rand_poly(rng, shape=(), maxterms=rng.choice([1, 2, 4]), dtype=dtype, names_pool=NAMES,
                               pool=[-12, -3, -1, 0, 1, 2, 10] if dtype == "int64" else [-2.5, -1.0, -0.5, 0.0, 0.5, 1.0, 1.5, 0.125, 1024.0])
                 yield {"poly": s, "options": o}
